@@ -560,29 +560,57 @@ def shard_read(acc, shard, nshards, params):
     core.drive(acc, "read_only", case_read_only, gen(), shard, nshards, family="read-only[depth=%d]" % depth)
 
 
+HLS = [None, {"PE": [(1,)]}, {"PE": [(0,)], "Q": [(1, 1)]}, {"PE": [(1, 0)]}]
+
+
 def case_render(case):
-    spec, depth, cfg, style = case
+    spec, depth, cfg, style = case[:4]
+    hl = HLS[case[4]] if len(case) > 4 else None
     out = []
     feats = tree_features(spec, depth) | {"depth:%d" % depth, "style:" + style}
+    if hl is not None:
+        feats.add("highlights:" + ("whole-subtensor" if any(len(p) < depth for ps in hl.values() for p in ps)
+                                   else "leaf-points"))
     T = mk(spec, depth, cfg)
     b = (rawtree(T.getRoot()), rank_index_view(T), rawtensor(T))
     cur = core.CUR
+
+    def render(h):
+        kw = {} if h is None else {"highlights": h}
+        if style == "tree":
+            im = TreeImage(T, **kw).im
+        elif style == "uncompressed":
+            im = UncompressedImage(T, **kw).im
+        else:
+            im = TensorImage(T, style=style, **kw).im
+        return (im.size, im.tobytes())
     try:
+        # plain, (highlighted twice,) plain again: a rendering may not leave anything behind for the next one
+        seq = [None, hl, hl, None] if hl is not None else [None, None]
         imgs = []
-        for _ in range(2):
-            if style == "tree":
-                im = TreeImage(T).im
-            elif style == "uncompressed":
-                im = UncompressedImage(T).im
-            else:
-                im = TensorImage(T, style=style).im
-            imgs.append((im.size, im.tobytes()))
-        if imgs[0] != imgs[1]:
-            out.append(("render:" + style, "two-renderings-differ", feats, imgs[0][0], imgs[1][0]))
+        for h in seq:
+            imgs.append(render(h))
+        if hl is None:
+            if imgs[0] != imgs[1]:
+                out.append(("render:" + style, "two-renderings-differ", feats, imgs[0][0], imgs[1][0]))
+        else:
+            if imgs[1] != imgs[2]:
+                out.append(("render:" + style, "two-renderings-differ", feats, imgs[1][0], imgs[2][0]))
+            if imgs[0] != imgs[3]:
+                out.append(("render:" + style, "plain-rendering-differs-after-a-highlighted-one", feats,
+                            imgs[0][0], imgs[3][0]))
         cur.nt("render")
         cur.outcome(imgs[0])
     except Exception as ex:
-        cur.path("render-raised:%s:%s" % (style, type(ex).__name__))
+        if len(imgs) >= 1 and seq[len(imgs)] is None:
+            # the same plain rendering succeeded at the start of this sequence
+            out.append(("render:" + style, "plain-rendering-raises-after-a-highlighted-one",
+                        feats | {"raised:" + type(ex).__name__, "site:" + core.exc_site(ex)}, None, core.tb_tail(ex)))
+        elif len(imgs) == 2 and hl is not None:
+            out.append(("render:" + style, "second-highlighted-rendering-raises",
+                        feats | {"raised:" + type(ex).__name__, "site:" + core.exc_site(ex)}, None, core.tb_tail(ex)))
+        else:
+            cur.path("render-raised:%s:%s" % (style, type(ex).__name__))
     cur.transitions += 2
     cur.validated += 2
     a = (rawtree(T.getRoot()), rank_index_view(T), rawtensor(T))
@@ -603,6 +631,8 @@ def shard_render(acc, shard, nshards, params):
         for spec in chosen:
             for style in ("tree", "uncompressed", "tree+uncompressed"):
                 yield (spec, depth, cfg, style)
+                for h in range(1, len(HLS)):
+                    yield (spec, depth, cfg, style, h)
     core.drive(acc, "render", case_render, gen(), shard, nshards, family="render[depth=%d]" % depth)
 
 
@@ -616,7 +646,7 @@ def run(ctx):
         "value-returning": "T2(2,2) (100 trees) x %d tensor configurations x %d operations x 8 follow-up mutations on each side; "
                            "T3(2,2,2) trees with <=%d stored leaves" % (len(_cfgs(2, q)), len(_OPS[2]) + len(_leaf_ops()), 2 if q else 3),
         "read-only": "same trees x 3 partner trees x %d operations" % len(_READERS[2]),
-        "render": "TreeImage / UncompressedImage / TensorImage(tree+uncompressed), each twice, on %s trees" % ("40 of T2(2,2)" if q else "all of T2(2,2) and 60 of T3(2,2,2)"),
+        "render": "TreeImage / UncompressedImage / TensorImage(tree+uncompressed), each twice plain, and plain - highlighted twice - plain with three highlight sets (whole sub-tensor, two workers, leaf point), on %s trees" % ("40 of T2(2,2)" if q else "all of T2(2,2) and 60 of T3(2,2,2)"),
     }
     sel = lambda n: not ctx.only or n in ctx.only
     if sel("value"):
